@@ -5,6 +5,7 @@ import (
 	"reflect"
 	"sort"
 	"strconv"
+	"strings"
 
 	"verif/internal/harness"
 	"verif/internal/model"
@@ -162,7 +163,44 @@ func (k *comparer) cmpStruct(st *stype, pre, exp, got reflect.Value, c *cval, pc
 		if c != nil && c.fields != nil {
 			cv = c.fields[f]
 		}
+		if goNameStyle(f.goName) == "ascii" {
+			k.cmpField(f, fpre, fexp, fgot, cv, f.policy(pc), where, p)
+			continue
+		}
+		// a field whose Go name begins with a capital letter outside ASCII is
+		// exported like any other: when it deviates and holds exactly what it
+		// held before although the configuration has a setting for it, the
+		// field was passed over as a whole -- a failure class of its own
+		out := k.res
+		tmp := harness.NewR(out.Index)
+		k.res = tmp
 		k.cmpField(f, fpre, fexp, fgot, cv, f.policy(pc), where, p)
+		k.res = out
+		out.Evals += tmp.Evals
+		if len(tmp.Violations) == 0 {
+			continue
+		}
+		mentioned := !cv.absent() && (cv.form != "fields" || cv.real > 0)
+		emptySetting := mentioned && (cv.form == "list" && len(cv.list) == 0 || cv.form == "keys" && len(cv.keys) == 0)
+		// (an empty list / object as the setting: its own failure classes)
+		if !emptySetting && equal(h0(fpre, f.typ), fgot, true) {
+			tagged := "without-name-in-tag"
+			if f.name != strings.ToLower(f.goName) {
+				tagged = "with-name-in-tag"
+			}
+			if mentioned {
+				out.Violate("setting-not-unpacked:go-field-name-starts-with-non-ascii-capital:"+tagged,
+					"field %s (%s, %s first letter, %s) has the setting %s and still holds %s, want %s; %s", p, f.shape(), goNameStyle(f.goName), where, renderGo(cv.toGo()), render(fgot), render(fexp), k.ctx())
+			} else {
+				// no setting, and the defaults its type or its fields declare were not applied either
+				out.Violate("defaults-not-applied:go-field-name-starts-with-non-ascii-capital:"+tagged,
+					"field %s (%s, %s first letter, %s) has no setting and still holds %s, want %s; %s", p, f.shape(), goNameStyle(f.goName), where, render(fgot), render(fexp), k.ctx())
+			}
+			continue
+		}
+		for _, v := range tmp.Violations {
+			out.Violate(v.Sig, "%s", v.Detail)
+		}
 	}
 }
 
@@ -303,6 +341,21 @@ func (k *comparer) cmpField(f *field, pre, exp, got reflect.Value, cv *cval, pc 
 					}
 				}
 			}
+			if len(cv.list) == 0 {
+				// the empty list as the setting: replace -> the empty list, every
+				// other policy -> the list as it was
+				src := pc.src
+				if src == "global" {
+					src = "global-" + site
+				}
+				sig = "empty-list-setting-changes-list:" + src + ":" + pc.pol
+				if replaces(pc) && base.Len() > 0 && equal(base, got, false) {
+					sig = "empty-list-setting-does-not-replace-old-elements:" + src + ":" + pc.pol
+				}
+				if where == "array-elem" {
+					sig += "@" + where
+				}
+			}
 			k.violate(sig, path, exp, got, fmt.Sprintf(" (pre-filled %s, setting %s, policy %s from %s; index-wise merge would give %s)",
 				render(base), renderGo(cv.toGo()), pc.pol, pc.src, render(def)))
 		}
@@ -388,9 +441,10 @@ func (k *comparer) cmpField(f *field, pre, exp, got reflect.Value, cv *cval, pc 
 		case absent && !k.sameRef(pre, got):
 			k.violate(unm+":identity", path, exp, got, " (equal contents, another map)")
 		case absent:
-		case got.IsNil():
+		case got.IsNil() && len(cv.keys) > 0:
 			k.violate(men, path, exp, got, "")
 		default:
+			// (the empty object meeting a nil map: nil or empty, not pinned)
 			if pc.pol == "replace" && !equal(exp, got, false) {
 				// is it the key-wise merge, as if there were no replace policy?
 				h := reflect.New(f.typ).Elem()
@@ -405,6 +459,13 @@ func (k *comparer) cmpField(f *field, pre, exp, got reflect.Value, cv *cval, pc 
 					}
 					if where == "array-elem" {
 						shape += "@" + where
+					}
+					if len(cv.keys) == 0 {
+						// the empty object under replace: "replaced by the new (no)
+						// entries" and "an empty dictionary replaces nothing" (the
+						// merge statement) can both be read into it -- not compared
+						k.res.Ev("empty_object_under_replace_left_the_old_entries(not pinned)", 1)
+						return
 					}
 					k.violate("map-not-replaced-under-replace-policy:"+pc.src+":"+shape, path, exp, got,
 						fmt.Sprintf(" (pre-filled %s, setting %s, policy replace from %s: the old entries are still there)", render(h0(pre, f.typ)), renderGo(cv.toGo()), pc.src))
@@ -427,6 +488,9 @@ func (k *comparer) cmpField(f *field, pre, exp, got reflect.Value, cv *cval, pc 
 				if mentioned {
 					sig = men
 				}
+				if len(cv.keys) == 0 {
+					sig = "empty-object-setting-changes-map:" + pc.src + ":" + pc.pol + ":" + f.shape() + "@" + where
+				}
 				if mentioned && gv.IsValid() && f.kind != kMapPrim {
 					var epre reflect.Value
 					if pre.IsValid() && !pre.IsNil() && pc.pol != "replace" {
@@ -444,7 +508,9 @@ func (k *comparer) cmpField(f *field, pre, exp, got reflect.Value, cv *cval, pc 
 				}
 			}
 			for _, key := range got.MapKeys() {
-				if !exp.MapIndex(key).IsValid() {
+				if !exp.MapIndex(key).IsValid() && len(cv.keys) == 0 {
+					k.violate("empty-object-setting-changes-map:"+pc.src+":"+pc.pol+":"+f.shape()+"@"+where, path+"["+strconv.Quote(key.String())+"]", reflect.Zero(f.typ.Elem()), got.MapIndex(key), " (entry appeared)")
+				} else if !exp.MapIndex(key).IsValid() {
 					k.violate("unmentioned-field-changed:"+f.shape()+"-extra-entry@"+where, path+"["+strconv.Quote(key.String())+"]", reflect.Zero(f.typ.Elem()), got.MapIndex(key), " (entry appeared)")
 				}
 			}
